@@ -7,9 +7,16 @@
 
 package jsonschema
 
-import "github.com/ogen-go/ogen/jsonpointer"
+import (
+	"fmt"
+
+	ogenjson "github.com/ogen-go/ogen/json"
+	"github.com/ogen-go/ogen/jsonpointer"
+	"github.com/ogen-go/ogen/location"
+)
 
 //@ use errors
+//@ use fmt
 //@ puremethod ResolveReference
 
 // The parser proper (about 900 lines, mutually recursive with resolve) is outside the verifier's
@@ -37,3 +44,57 @@ import "github.com/ogen-go/ogen/jsonpointer"
 //@   ensures stack: jsonpointer.VerifStack(ctx) == old(jsonpointer.VerifStack(ctx))
 
 var _ jsonpointer.RefKey
+
+// ---------------------------------------------------------------------------
+// C18, last sentence: "a schema is rejected for duplicate enum values exactly when two members are the
+// same value". The duplicate scan is a section of parse1 (which as a whole is outside the verifier's
+// reach: ranges over maps, closures, 150 lines); the section - the nested loop over the enum members -
+// is extracted MECHANICALLY on every run, verbatim, as a function of its own (directive below; only the
+// return statement is rewritten, from parse1's two results to one), and put under contract:
+// it returns an error exactly when two DIFFERENT positions hold members that json.Equal calls equal
+// (json.Equal's number comparison is proved sound and complete under C18's equalNumber contract).
+// ---------------------------------------------------------------------------
+
+//@ extract verifEnumDuplicates(p *Parser, ctx *jsonpointer.ResolveCtx, enum Enum, loc location.Locator) (err error)
+//@ xfrom parser.go (*Parser).parse1
+//@ xstmt for i, a := range enum {
+//@ xrewrite return nil, me => return me
+//@ xtail return nil
+
+// sameJSON: the verdict of json.Equal (errors count as "not equal", as parse1 ignores them).
+func sameJSON(a, b []byte) bool {
+	ok, _ := ogenjson.Equal(a, b)
+	return ok
+}
+
+//@ func sameJSON(a []byte, b []byte) (r bool)
+//@   trusted wrapper around json.Equal (package json; number comparison verified there), an uninterpreted relation here
+//@   pure
+
+//@ extern func ogenjson.Equal(a []byte, b []byte) (ok bool, err error)
+//@   pure
+//@   ensures rel: ok == sameJSON(a, b)
+
+// Error reporting helpers: no effect the contract talks about.
+//@ func (p *Parser) file(ctx *jsonpointer.ResolveCtx) (f location.File)
+//@   trusted reads the resolve context only
+//@   pure
+//@ extern func (l location.Locator) Index(idx int) (loc location.Locator)
+//@   pure
+//@ extern func (e *location.MultiError) Report(file location.File, l location.Locator, msg string)
+
+//@ func verifEnumDuplicates(p *Parser, ctx *jsonpointer.ResolveCtx, enum Enum, loc location.Locator) (err error)
+//@   requires recv: p != nil
+//@   ensures dup:   err != nil ==> (exists i in (0, len(enum)) :: exists j in (0, len(enum)) :: i != j && sameJSON(enum[i], enum[j]))
+//@   ensures nodup: err == nil ==> (forall i in (0, len(enum)) :: forall j in (0, len(enum)) :: i != j ==> !sameJSON(enum[i], enum[j]))
+//@   loop 0 vars rangeindex int
+//@   loop 0 invariant range: -1 <= rangeindex && rangeindex < len(enum)
+//@   loop 0 invariant seen:  forall i in (0, rangeindex+1) :: forall j in (0, len(enum)) :: i != j ==> !sameJSON(enum[i], enum[j])
+//@   loop 0 decreases len(enum) - rangeindex
+//@   loop 1 vars rangeindex int, rangeindex_L0 int
+//@   loop 1 invariant range: -1 <= rangeindex && rangeindex < len(enum)
+//@   loop 1 invariant row:   forall j in (0, rangeindex+1) :: rangeindex_L0+1 != j ==> !sameJSON(enum[rangeindex_L0+1], enum[j])
+//@   loop 1 decreases len(enum) - rangeindex
+
+var _ = fmt.Sprintf
+var _ location.File
